@@ -39,6 +39,21 @@ LIST_PARAMS = ("scope", "response_type")
 
 
 # ------------------------------------------------------------------ Coq literals
+CONST = {"client_id": "k_client_id", "redirect_uri": "k_redirect_uri", "scope": "k_scope", "state": "k_state",
+         "response_type": "k_response_type", "request": "k_request", "request_uri": "k_request_uri", "iss": "k_iss",
+         "aud": "k_aud", "authenticated": "k_authenticated", "nonce": "k_nonce", "True": "s_true",
+         "client_1": "s_c1", "client_2": "s_c2", "https://client_1.example.com/cb": "s_r1",
+         "https://client_2.example.com/cb": "s_r2", "openid": "s_openid", "email": "s_email", "code": "s_code",
+         "https://example.com/": "s_op", "<JWS>": "s_jws", "RS256": "s_rs256", "ES256": "s_es256", "HS256": "s_hs256",
+         "RS384": "s_rs384", "none": "s_none", "in0": "s_in0", "out0": "s_out0",
+         "https://client_1.example.com/ro/0": "s_doc0"}
+_coq_str = coq_str
+
+
+def coq_str(s):
+    return CONST.get(s) or _coq_str(s)
+
+
 def canon_claims(c):
     out = {}
     for k, v in c.items():
@@ -63,12 +78,13 @@ def coq_wobj(o):
     if "bad" in o:
         return "WBad"
     sg = o.get("sig")
+    cl = coq_params(canon_claims(o["claims"]))
     if sg is None:
-        s = "None"
-    else:
-        s = "(Some {| s_key := %s; s_alg := %s; s_claims := %s |})" % (
-            coq_nat(S.keynum(sg["owner"], S.ALG_KTY[sg["alg"]])), coq_str(sg["alg"]), coq_params(canon_claims(sg["claims"])))
-    return "(WObj %s %s %s)" % (coq_str(o["alg"]), coq_params(canon_claims(o["claims"])), s)
+        return "(WObj %s %s None)" % (coq_str(o["alg"]), cl)
+    k = coq_nat(S.keynum(sg["owner"], S.ALG_KTY[sg["alg"]]))
+    if sg["alg"] == o["alg"] and canon_claims(sg["claims"]) == canon_claims(o["claims"]) and list(sg["claims"]) == list(o["claims"]):
+        return "(wgen %s %s %s)" % (coq_str(o["alg"]), cl, k)
+    return "(wsig %s %s %s %s %s)" % (coq_str(o["alg"]), cl, k, coq_str(sg["alg"]), coq_params(canon_claims(sg["claims"])))
 
 
 def coq_wopt(o):
@@ -97,7 +113,8 @@ def coq_cfg_var(oc):
         coq_bool(oc["oidc"]), coq_bool(oc["has_par"]), coq_list([METH[m] for m in oc["methods"]], "meth"),
         coq_bool(oc["methods_configured"]), coq_list([HOOK.get(h, "HOther") for h in oc["hooks"]], "hook"),
         coq_list([HOOK.get(h, "HOther") for h in oc["par_hooks"]], "hook"),
-        coq_list([coq_str(a) for a in oc["prov_algs"]], "pystr"), coq_bool(oc["ru_supported"]), coq_z(oc["ttl"]), cl)
+        "None" if oc["prov_algs"] == oc.get("prov_default") else "(Some %s)" % coq_list([coq_str(a) for a in oc["prov_algs"]], "pystr"),
+        coq_bool(oc["ru_supported"]), coq_z(oc["ttl"]), cl)
 
 
 KTY = {"RSA": "KRsa", "EC": "KEc", "oct": "KOct"}
@@ -109,7 +126,7 @@ def coq_static(oc):
     base = coq_list(["(%s, %s, %s)" % (coq_str(c["cid"]), coq_list([coq_str(u) for u in c["redirect_uris"]], "pystr"),
                                          coq_list([coq_list([coq_str(x) for x in rt], "pystr") for rt in c["response_types"]], "(list pystr)"))
                      for c in oc["clients"]], "(pystr * list pystr * list (list pystr))")
-    return jar, base
+    return jar, base, coq_list([coq_str(a) for a in oc["prov_default"]], "pystr")
 
 
 def coq_out(o):
@@ -348,20 +365,21 @@ class Runner:
         if not modelled(wkey[0], real_ops, docs):
             ctx.unmodelled += 1
             return rec
-        jar, base = coq_static(oc)
+        oc["prov_default"] = w.base_algs
+        jar, base, dprov = coq_static(oc)
         term = "(%s, %s, %s, %s)" % (
             coq_cfg_var(oc),
             coq_list(["(%s, %s)" % (coq_str(u), coq_wobj(o)) for u, o in docs.items()], "(pystr * wobj)"),
             coq_z(t0),
             coq_list(["(%s, %s)" % (coq_op(o), coq_obs(b)) for o, b in trace], "(op * obs)"))
-        self.cases.setdefault((jar, base), []).append((term, rec))
+        self.cases.setdefault((jar, base, dprov), []).append((term, rec))
         return rec
 
     # ---- the oracle for one object that may have taken effect
     def judge_object(self, rec, transport, obj, outer, out, ident, reg, prov, when=""):
         """out: canonical accepted outcome (or stored snapshot); ident: the client the effective request is attributed to"""
         ctx, S = self.ctx, self.S
-        if out is None or out.get("k") != "acc":
+        if obj is None or out is None or out.get("k") != "acc":
             return
         eff = out["params"]
         if "bad" in obj:
@@ -682,9 +700,10 @@ CASE_T = "ccase"
 
 
 def flush(R, ctx, label):
-    for (jar, base), cases in R.cases.items():
-        ctx.coq_check_cases(IMPORTS, CASE_T, "(chk_compact %s %s)" % (jar, base), cases, shard=150, label=label,
-                            diag="(diag_compact %s %s)" % (jar, base))
+    for (jar, base, dprov), cases in R.cases.items():
+        shard = max(40, min(150, -(-len(cases) // E.NCPU)))
+        ctx.coq_check_cases(IMPORTS, CASE_T, "(chk_compact %s %s %s)" % (jar, base, dprov), cases, shard=shard, label=label,
+                            diag="(diag_compact %s %s %s)" % (jar, base, dprov))
     R.cases = {}
 
 
